@@ -290,6 +290,12 @@ structure Mon where
   firedOver : Bool := false
   firedStarve : Bool := false
   firedOversize : Bool := false
+  /-- shadow of the bucket under the CODED refill arithmetic, driven by the observed verdicts: tokens, last_update -/
+  sTok : Nat := 0
+  sLast : Nat := 0
+  /-- some observed verdict of this stream is not the one the coded arithmetic gives for the shadow bucket: from then
+      on a shortfall is no longer attributed to D52 (whose mechanism is the coded refill and nothing else) -/
+  unexplained : Bool := false
 deriving Repr
 
 def Mon.new (rate burst : Nat) : Mon := { rate := rate, burst := burst }
@@ -301,6 +307,11 @@ def Mon.step (m : Mon) (t len : Nat) (admitted : Bool) : Mon × List (String × 
   else
   let a := if admitted then len * SCALE else 0
   let maxPkt := max m.maxPkt len
+  -- shadow bucket: token_bucket_check's refill in ℕ with explicit wrap, then the OBSERVED verdict
+  let nt := ((2 ^ 64 - m.sLast + t) % 2 ^ 64 * (m.rate / 8)) % 2 ^ 64 / 1000000000
+  let t2 := min ((m.sTok + nt) % 2 ^ 64) m.burst
+  let m := { m with sTok := if admitted then t2 - len else t2, sLast := t % 2 ^ 64,
+                    unexplained := m.unexplained || (admitted != decide (len ≤ t2)) }
   match m.prev with
   | none =>
     -- first arrival: the only window is [1..1]
@@ -334,7 +345,8 @@ def Mon.step (m : Mon) (t len : Nat) (admitted : Bool) : Mon × List (String × 
     let vsS := if starved && !m.firedStarve then
         let x := v.getD 0
         -- attributed to D52 only if crediting the tokens the refill arithmetic lost restores the bound
-        let clause := if decide (x + ((m.burst * SCALE + l : Nat) : Int) ≥ 0) then "D52" else "none"
+        -- … and every verdict of the stream so far is the one the coded refill gives (shadow bucket)
+        let clause := if decide (x + ((m.burst * SCALE + l : Nat) : Int) ≥ 0) && !m.unexplained then "D52" else "none"
         [("starved", clause, s!"backlogged window served {(-x) / (SCALE : Int)} bytes less than rate*window (allowed slack {m.burst + maxPkt}); refill loss {l / SCALE} bytes (rate {m.rate} burst {m.burst})")]
       else []
     -- a subscriber whose every offer exceeds the burst: the window (start, t] has served nothing; the property's
